@@ -73,6 +73,10 @@ var c07Witnesses = []c07Witness{
 	{`(a)?b\1`, "abaxba", false}, {`(?:(a)|b)(?(1)c|d)`, "ac-bd-ac-bc", false}, {`\1b(a)?`, "abxaba", true}, {`(?:(a)|(b))(?(2)x|y)`, "ay-bx-ay-by-bx", false}, {`(?<o>a)?(?<-o>b)?c`, "abc-c-bc-ac", false},
 	// groups kept alive only by a back-reference carrying a modifier bit (IgnoreCase, right-to-left, inside a lookbehind):
 	// the find-all calls run the capture-pruned program and must still agree with the FindNextMatch chain
+	// sparse explicit numbers (group number != slot) under a back-reference or a conditional: the capture-pruned program
+	// must keep the group that is referred to, whichever table (number or slot) it is looked up in
+	{`(?<2>a)(?<3>b)\2`, "aba abb aba", false}, {`(?<2>\w)(?<3>\d)?\2`, "aa b1b cc", false}, {`(?<5>a)(b)\5`, "abaaba", false}, {`(?<7>a)?(?(7)b|c)`, "ab c ac", false},
+	{`(?<3>a)(?<x>b)\3\k<x>`, "abab abba", false}, {`\2(?<3>b)(?<2>a)`, "aba bba aba", true}, {`(?<2>a)(?<4>b)(?<6>c)\4`, "abcb abca", false}, {`(?<10>a)(?<20>b)\20\10`, "abba abab", false},
 	{`(?i)(\w)\1`, "aAbBcd", false}, {`(?<=\1(a))x`, "aaxax", false}, {`\1(a)`, "baab", true}, {`(?i)(a)\1`, "aaaa", false}, {`(?i)(a)\1`, "aAAa", true}, {`(a)(?<=\1)b?`, "aab", false},
 }
 
